@@ -129,60 +129,33 @@ var tsLine = regexp.MustCompile(`(?m)^-- Generated at: .*$`)
 
 func maskTS(b []byte) []byte { return tsLine.ReplaceAll(b, []byte("-- Generated at: <masked>")) }
 
-// canonJSON parses a stream of JSON values and re-renders them with every array sorted by the rendering of
-// its elements (table / sequence order is C11's business), so that two processes can be compared
-func canonJSON(b []byte) string {
-	dec := json.NewDecoder(bytes.NewReader(b))
-	dec.UseNumber()
-	var out []string
-	for {
-		var v interface{}
-		if err := dec.Decode(&v); err != nil {
-			break
-		}
-		out = append(out, canonJ(v))
-	}
-	return strings.Join(out, "\n")
-}
-
-func canonJ(v interface{}) string {
-	switch x := v.(type) {
-	case map[string]interface{}:
-		keys := make([]string, 0, len(x))
-		for k := range x {
-			keys = append(keys, k)
-		}
-		sort.Strings(keys)
-		parts := make([]string, len(keys))
-		for i, k := range keys {
-			parts[i] = strconv.Quote(k) + ":" + canonJ(x[k])
-		}
-		return "{" + strings.Join(parts, ",") + "}"
-	case []interface{}:
-		parts := make([]string, len(x))
-		for i, e := range x {
-			parts[i] = canonJ(e)
-		}
-		sort.Strings(parts)
-		return "[" + strings.Join(parts, ",") + "]"
-	default:
-		b, _ := json.Marshal(x)
-		return string(b)
-	}
-}
-
 type expect struct {
 	stdout []byte
 	exit   int
-	kind   string // "json": compare canonical JSON; "sql": mask timestamp; "raw"
+	kind   string // "sql": the timestamp of the `-- Generated at:` line is masked on both sides; "raw": byte for byte
 }
 
+// encJSON is main.go's own rendering of a library result (json.NewEncoder + SetIndent("", "  ")); since second-review
+// point 11 EVERY JSON mode (-control, -sequences, -relmap, -f -index, -R, the dump) is compared with it byte for byte:
+// the former canonJSON (every array sorted, keys re-rendered) hid element order, which is deterministic in all of them
+// (FindSequences / GetTOASTVerboseInfo visit sorted keys since 9299071 / b0268df).
 func encJSON(v interface{}) []byte {
 	var buf bytes.Buffer
 	enc := json.NewEncoder(&buf)
 	enc.SetIndent("", "  ")
 	enc.Encode(v)
 	return buf.Bytes()
+}
+
+// jsonOut: main.go's mustEncode — an encoding error means nothing usable on stdout and exit code 1
+func jsonOut(v interface{}) expect {
+	var buf bytes.Buffer
+	enc := json.NewEncoder(&buf)
+	enc.SetIndent("", "  ")
+	if err := enc.Encode(v); err != nil {
+		return expect{nil, 1, "raw"}
+	}
+	return expect{buf.Bytes(), 0, "raw"}
 }
 
 func unhexS(s string) string { return string(core.Unhex(s)) }
@@ -212,7 +185,7 @@ func expected(action string, dir string) expect {
 		if err != nil {
 			return fail
 		}
-		return expect{encJSON(cf), 0, "json"}
+		return jsonOut(cf)
 	case "seq":
 		d := sub(unhexS(f[1]))
 		if f[2] == "all" {
@@ -220,13 +193,13 @@ func expected(action string, dir string) expect {
 			if err != nil {
 				return fail
 			}
-			return expect{encJSON(r), 0, "json"}
+			return jsonOut(r)
 		}
 		r, err := pgdump.FindSequences(d, unhexS(f[3]))
 		if err != nil {
 			return fail
 		}
-		return expect{encJSON(r), 0, "json"}
+		return jsonOut(r)
 	case "relmap":
 		d := sub(unhexS(f[1]))
 		var v interface{}
@@ -242,7 +215,7 @@ func expected(action string, dir string) expect {
 		if err != nil {
 			return fail
 		}
-		return expect{encJSON(v), 0, "json"}
+		return jsonOut(v)
 	case "passwords":
 		auths, err := pgdump.ExtractPasswords(sub(unhexS(f[1])))
 		if err != nil {
@@ -290,8 +263,7 @@ func expected(action string, dir string) expect {
 			}
 			return expect{b.Bytes(), 0, "raw"}
 		}
-		// the dump: compared byte for byte (table, column and row order are part of what the program prints; remediation R6:
-		// the array sorting of canonJSON hid them).  -sequences keeps "json" until FindSequences' order is deterministic.
+		// the dump: compared byte for byte (table, column and row order are part of what the program prints)
 		return expect{encJSON(r), 0, "raw"}
 	case "file":
 		path := sub(unhexS(f[1]))
@@ -309,28 +281,33 @@ func expected(action string, dir string) expect {
 					fmt.Fprintf(&b, "  %s (OID %d)\n", db.Name, db.OID)
 				}
 			case "1259":
-				// set of lines: the order is map iteration order before fix 05 (C11 owns the order)
+				// main.go prints the relations in ascending filenode order (fix cluster/05); compared byte for byte
 				b.WriteString("pg_class:\n")
-				var lines []string
-				for _, t := range pgdump.ParsePGClass(data) {
-					lines = append(lines, fmt.Sprintf("  %s (OID %d, filenode %d, kind %s)\n", t.Name, t.OID, t.Filenode, t.Kind))
+				tables := pgdump.ParsePGClass(data)
+				fns := make([]uint32, 0, len(tables))
+				for fn := range tables {
+					fns = append(fns, fn)
 				}
-				sort.Strings(lines)
-				b.WriteString(strings.Join(lines, ""))
-				return expect{b.Bytes(), 0, "lines"}
+				sort.Slice(fns, func(i, j int) bool { return fns[i] < fns[j] })
+				for _, fn := range fns {
+					t := tables[fn]
+					fmt.Fprintf(&b, "  %s (OID %d, filenode %d, kind %s)\n", t.Name, t.OID, t.Filenode, t.Kind)
+				}
 			case "1249":
+				// relations in ascending oid order (fix cluster/05), columns as ParsePGAttribute lists them; byte for byte
 				b.WriteString("pg_attribute:\n")
-				var blocks []string
-				for relid, cols := range pgdump.ParsePGAttribute(data, 0) {
-					s := fmt.Sprintf("  relation %d:\n", relid)
-					for _, c := range cols {
-						s += fmt.Sprintf("    %d: %s (%s)\n", c.Num, c.Name, pgdump.TypeName(c.TypID))
-					}
-					blocks = append(blocks, s)
+				attrs := pgdump.ParsePGAttribute(data, 0)
+				relids := make([]uint32, 0, len(attrs))
+				for relid := range attrs {
+					relids = append(relids, relid)
 				}
-				sort.Strings(blocks)
-				b.WriteString(strings.Join(blocks, ""))
-				return expect{b.Bytes(), 0, "blocks"}
+				sort.Slice(relids, func(i, j int) bool { return relids[i] < relids[j] })
+				for _, relid := range relids {
+					fmt.Fprintf(&b, "  relation %d:\n", relid)
+					for _, c := range attrs[relid] {
+						fmt.Fprintf(&b, "    %d: %s (%s)\n", c.Num, c.Name, pgdump.TypeName(c.TypID))
+					}
+				}
 			default:
 				fmt.Fprintf(&b, "Heap file: %d tuples\n", len(pgdump.ParseFile(data)))
 			}
@@ -344,7 +321,7 @@ func expected(action string, dir string) expect {
 			if err != nil {
 				return fail
 			}
-			return expect{encJSON(info), 0, "json"}
+			return jsonOut(info)
 		case "b":
 			var br *pgdump.BlockRange
 			if r := unhexS(f[3]); r != "" {
@@ -378,37 +355,10 @@ func expected(action string, dir string) expect {
 			if err != nil {
 				return fail
 			}
-			return expect{encJSON(blocks), 0, "json"}
+			return jsonOut(blocks)
 		}
 	}
 	panic("cli: action not supported by the handler: " + action)
-}
-
-// sortedBlocks splits "header\n" + blocks starting with "  relation" / lines and sorts them
-func sortLinesAfterHeader(b []byte, blockPrefix string) string {
-	s := string(b)
-	i := strings.IndexByte(s, '\n')
-	if i < 0 {
-		return s
-	}
-	head, rest := s[:i+1], s[i+1:]
-	var blocks []string
-	cur := ""
-	for _, l := range strings.SplitAfter(rest, "\n") {
-		if l == "" {
-			continue
-		}
-		if strings.HasPrefix(l, blockPrefix) && cur != "" {
-			blocks = append(blocks, cur)
-			cur = ""
-		}
-		cur += l
-	}
-	if cur != "" {
-		blocks = append(blocks, cur)
-	}
-	sort.Strings(blocks)
-	return head + strings.Join(blocks, "")
 }
 
 func init() {
@@ -456,14 +406,8 @@ func init() {
 		got := stdout.Bytes()
 		same := false
 		switch want.kind {
-		case "json":
-			same = canonJSON(got) == canonJSON(want.stdout)
 		case "sql":
 			same = bytes.Equal(maskTS(got), maskTS(want.stdout))
-		case "lines":
-			same = sortLinesAfterHeader(got, "  ") == string(want.stdout)
-		case "blocks":
-			same = sortLinesAfterHeader(got, "  relation") == string(want.stdout)
 		default:
 			same = bytes.Equal(got, want.stdout)
 		}
